@@ -57,16 +57,23 @@ var nontrivialRules = map[string]func(r *Runner) bool{
 	"C03": func(r *Runner) bool { return r.Cnt["images_ok"] > 3 && len(r.States) > 2 },
 	"C04": func(r *Runner) bool { return r.Cnt["images_ok"] > 3 && r.Cnt["batches"] > 0 },
 	"C07": func(r *Runner) bool { return r.Cnt["images_ok"] > 3 && r.Cnt["merges"] > 0 },
-	"C05": func(r *Runner) bool { return r.Cnt["batches"] > 0 && r.Cnt["batch_repeat_key"]+r.Cnt["batch_get_from_db"] > 0 },
-	"C06": func(r *Runner) bool { return r.Cnt["merges"] > 0 && r.Cnt["restarts_after_merge"] > 0 },
-	"C10": func(r *Runner) bool { return r.Cnt["iter_sessions_multi"] > 0 },
+	"C12": func(r *Runner) bool { return r.Cnt["damage_images"] > 10 && len(r.States) > 1 },
+	"C08": func(r *Runner) bool { return r.Cnt["sched_switches"] > 1 && r.Cnt["conc_puts"]+r.Cnt["conc_dels"] > 1 },
+	"C09": func(r *Runner) bool { return r.Cnt["sched_switches"] > 1 },
+	"C05": func(r *Runner) bool {
+		return (r.Cnt["batches"] > 0 && r.Cnt["batch_repeat_key"]+r.Cnt["batch_get_from_db"] > 0) || r.Cnt["conc_batch_unstaged_reads"] > 0
+	},
+	"C06": func(r *Runner) bool {
+		return (r.Cnt["merges"] > 0 && r.Cnt["restarts_after_merge"] > 0) || (r.Cnt["conc_merges"] > 0 && r.Cnt["sched_switches"] > 1)
+	},
+	"C10": func(r *Runner) bool { return r.Cnt["iter_sessions_multi"]+r.Cnt["conc_iter_sessions_multi"] > 0 },
 	"C13": func(r *Runner) bool {
 		return r.Cnt["always_checks"]+r.Cnt["threshold_checks"]+r.Cnt["sync_batch_checks"]+r.Cnt["all_synced_checks"] > 1
 	},
 	"C15": func(r *Runner) bool { return r.Cnt["puts"]+r.Cnt["batch_ops"] > 2 },
 	"C17": func(r *Runner) bool { return r.Cnt["stat_checks"] > 2 && r.Cnt["overwrites"]+r.Cnt["deletes_present"] > 0 },
 	"C18": func(r *Runner) bool { return r.Cnt["hint_checks"] > 0 && r.Cnt["hint_entries"] > 1 },
-	"C20": func(r *Runner) bool { return r.Cnt["backups"] > 0 && len(r.States) > 2 },
+	"C20": func(r *Runner) bool { return (r.Cnt["backups"] > 0 && len(r.States) > 2) || r.Cnt["conc_backups"] > 0 },
 }
 
 // NontrivialRuleText documents the rules (copied into the evidence).
@@ -76,6 +83,9 @@ var NontrivialRuleText = map[string]string{
 	"C03": "run has >=2 acknowledged mutations and >=4 crash images whose recovery was judged; distinct = distinct hash of the executed case; every journal position of a run is a process-crash image, a seeded subset also gets power-loss cuts",
 	"C04": "run has >=1 committed batch and >=4 judged crash images; distinct = distinct case hash",
 	"C07": "run has >=1 successful Merge and >=4 judged crash images inside Merge / the adopting Open (plus their second-level images); distinct = distinct case hash",
+	"C12": "run built a database with >=1 acknowledged mutation and judged >10 damaged images of it; distinct = distinct hash of the executed case; bit flips are complete for runs whose files total <= the flipall knob (counted in exhaustive_flip_runs), sampled otherwise",
+	"C08": "run had >=2 context switches among clients and >=2 concurrent writes; distinct = distinct hash of (programs, configuration, explicit schedule); interleavings counted separately as distinct (task, point kind, lock id) sequences",
+	"C09": "run had >=2 context switches among clients issuing the listed calls; distinct = distinct hash of (programs, configuration, explicit schedule)",
 	"C05": "case has >=1 committed batch with a repeated key or a read that falls through to the database; distinct = distinct case hash",
 	"C06": "case has >=1 successful Merge followed by an adopting restart; distinct = distinct case hash",
 	"C10": "case has >=1 iterator session over >=2 visible keys; distinct = distinct case hash",
